@@ -45,13 +45,23 @@ fn continuation(c: usize, seed: u64, idx: u64) -> Bits {
                 b.push_bit((r.next() & 1) as u8);
             }
         }
-        _ => {
+        3 => {
             for _ in 0..20 {
                 b.push_bit(0);
             }
             b.push_bit(1);
             for _ in 0..75 {
                 b.push_bit(1);
+            }
+        }
+        _ => {
+            // further seeded continuations with a short zero prefix of varying length
+            for _ in 0..(c - 3) {
+                b.push_bit(0);
+            }
+            b.push_bit(1);
+            while b.len() < 96 {
+                b.push_bit((r.next() & 1) as u8);
             }
         }
     }
@@ -81,7 +91,7 @@ fn sweep_doc(e: End, kind: &str, backend: &str, image: &[u8], len_bits: usize, w
 /// Part 1: complete sweep of decode-table indices.
 fn sweep(ctx: &Ctx) -> Outcome {
     let mut tasks: Vec<Task> = vec![];
-    let nconts = 4;
+    let nconts = if ctx.thorough { 8 } else { 4 };
     for (code, read_bits, _) in tables() {
         for e in End::BOTH {
             for kind in KINDS {
@@ -334,7 +344,7 @@ pub fn c05(ctx: &Ctx) -> (CheckMeta, Outcome) {
     let meta = CheckMeta {
         property: "C05".into(),
         level: "model_checking".into(),
-        rule: "(1) complete sweep of every decode-table index (2^9 gamma, 2^11 delta, 2^12 zeta3, BE and LE) followed by 4 continuations, at every offset 0..=2W+1, reached plainly and after a full-width peek, on a zero-extended stream and on a strict stream whose last word holds the end of the codeword; every read variant (default method, every table-flag combination, table-free) on clones must return the reference value, end at the reference position and leave a reader that reads the next bits correctly; (2) every encode/length table entry and 70 values beyond WRITE_MAX through every write variant: same bits, same lengths, read back by 3 readers; LEN tables vs formula; (3) BFS to the fixpoint of the reader state space on images of valid gamma/delta/zeta3 codewords with all table operations in the alphabet; table operations are only issued on reader kinds whose construction printed no diagnostic for that table (probed in a child process); evaluations = (index, continuation) pairs; non-trivial = codeword at least as long as the index width".into(),
+        rule: "(1) complete sweep of every decode-table index (2^9 gamma, 2^11 delta, 2^12 zeta3, BE and LE) followed by 4 (thorough 8) continuations, at every offset 0..=2W+1, reached plainly and after a full-width peek, on a zero-extended stream and on a strict stream whose last word holds the end of the codeword; every read variant (default method, every table-flag combination, table-free) on clones must return the reference value, end at the reference position and leave a reader that reads the next bits correctly; (2) every encode/length table entry and 70 values beyond WRITE_MAX through every write variant: same bits, same lengths, read back by 3 readers; LEN tables vs formula; (3) BFS to the fixpoint of the reader state space on images of valid gamma/delta/zeta3 codewords with all table operations in the alphabet; table operations are only issued on reader kinds whose construction printed no diagnostic for that table (probed in a child process); evaluations = (index, continuation) pairs; non-trivial = codeword at least as long as the index width".into(),
         assumptions: vec!["the library's construction-time diagnostic decides which reader may use which table".into()],
     };
     (meta, out)
